@@ -93,7 +93,7 @@ def enabled(cfg):
         if act == 'RxFrame':
             if s['eio'][a['t']] != 'open':
                 return False
-            if a['kind'] == 'hdr':
+            if a['kind'] in ('hdr', 'hdrbad'):
                 return a['t'] not in s['binbuf']
             return a['t'] not in s['binbuf'] or \
                 len(s['binbuf'][a['t']]['atts']) < 3
@@ -332,6 +332,11 @@ def hostile(cfg):
                     id=-1, ev='e_v', n=n))
     A.append(mk('RxFrame', t=off, kind='hdr', ty='BINARY_ACK', ns='/', id=1,
                 ev='', n=1))
+    # binary packets whose placeholders point outside the attachments
+    A.append(mk('RxFrame', t=off, kind='hdrbad', ty='BINARY_EVENT', ns='/',
+                id=7, ev='e_v', n=1))
+    A.append(mk('RxFrame', t=off, kind='hdrbad', ty='BINARY_ACK', ns='/', id=1,
+                ev='', n=1))
     A.append(mk('RxFrame', t=off, kind='att', b='b1'))
     return _mp_filter(cfg, A)
 
@@ -342,7 +347,8 @@ def _mp_filter(cfg, A):
     if cfg.get('serializer') != 'msgpack':
         return A
     return [a for a in A if not (a['act'] == 'RxFrame' and
-                                 a['kind'] == 'hdr' and a['n'] != 0)]
+                                 a['kind'] in ('hdr', 'hdrbad') and
+                                 a['n'] != 0)]
 
 
 CONFIGS['hostile'] = dict(transports=['t1', 't2', 't3'], offender='t1',
